@@ -17,6 +17,10 @@ ENTRIES = {
   text="Lean theorems about the state machine of convert / convert_pressure / convert_loading / convert_material / convert_temperature (hand-written model, every statement order and early return mirrored): for ANY history of calls with ARBITRARY string arguments there is a valid final representation, the labels are accepted by the constructor, the stored columns equal the original columns converted directly (canonical SI content conserved row-wise), back-to-start restores the numbers, a refused single call changes nothing, a refused combined call leaves exactly the completed prefix, rows are only rescaled (count/order untouched), every rewriting branch resets the caches.",
   note=TB + "The model is tied to the code by correspondence only (sampled label states x every argument class, seeded histories; thorough tier larger), so a behaviour outside the sampled space is not excluded; pandas column assignment and CoolProp values are residue. S2/S2b/S3/S4 fixed in the repository.",
   technique="Lean 4 proof (invariant by induction over operation histories of a hand-written state-machine model), model/implementation correspondence on real objects, SI-invariant oracle as failing-input search"),
+ "C03": dict(
+  text="Lean theorems about the hand-written accessor model: linearity of the unit functions; accessor = read of the permanent conversion for ALL argument strings (pressure: any valid labels; loading: stored physical basis) with equal refusal classes; inverse interpretation of foreign-unit inputs; branch selection = filter in stored order; limits = inclusive filter with Python's truthiness rule; split rule = first maximum (label-free by type); linear interpolation: exact at knots, chord between, refused outside. Witnesses for the S5 family proved by kernel evaluation.",
+  note=TB + "Partial: for isotherms stored as fraction/percent the accessor theorem holds only without a material change (S5a-g known findings, witnesses in Lean); scipy interp1d is validated only for kind='linear'; model tied by correspondence on sampled representation pairs. S6 fixed.",
+  technique="Lean 4 proof about a hand-written accessor model, model/implementation correspondence incl. malformed arguments, SI-oracle failing-input search"),
  "C10": dict(
   text="Lean theorems over the reals about the functions regenerated from modelling/*.py on every run (tie lemmas Gen = published equation, then per model: pressure(loading p) = p and converse, zero point incl. the 0/0 point of the quadratic inverses, sign, strict monotonicity on the validity range, saturation bound, Henry limit; injectivity of the pressure-explicit models as the specification of the numerical inverses). Float copies of the same generated text are run against the Python originals; the property oracle runs on the real classes.",
   note=TB + "Partial where the truth is numerical: scipy.optimize inverses (TSLangmuir, Temkin, Jensen-Seaton, Virial, VST) are specified by residual and checked only where the library reports success; IEEE rounding per the tolerance table. BET/GAB inverse needs N != C (C != 1). Known finding S24 (Virial.loading returns a non-root with success); S1 fixed.",
